@@ -42,11 +42,12 @@ CONSTANTS Peers,            \* e.g. {"p1","p2","p3"}; all subscribed to the topi
           Gater,            \* "off" | "quiet" | "throttling"
           MixMode,          \* "move" | "basic" | "all": which RPC mixes are explored
           ScoreFree,        \* peers whose score is set by SetScore (the others stay at 0)
-          Bug               \* "none" or the name of a seeded defect
+          Bug,              \* "none" or the name of a seeded defect
+          D, Dlo, Dhi, Dscore  \* mesh degrees: (4, 2, 5, 2) = world.SmallParams, never full with 3 inbound peers;
+                               \* (2, 1, 2, 1) makes the mesh-full refusal of handleGraft and the over-subscription prune reachable
 
 \* gossipsub parameters of the harness (world.SmallParams)
-D == 4
-Dlo == 2
+ASSUME Dlo <= D /\ D <= Dhi /\ Dscore <= D
 Dlazy == 2
 PrunePeers == 2
 OppPeers == 1
@@ -148,13 +149,16 @@ RpcWith(p, mix, pxl, v) ==
         gCase  == IF ~graftOn THEN "skip"
                   ELSE IF p \in Direct THEN "direct"
                   ELSE IF p \in backoff THEN "backoff"
+                  ELSE IF Bug = "fullBeforeNegative" /\ Cardinality(sel) >= Dhi THEN "full"
                   ELSE IF GraftRefused(s) THEN "negative"
+                  ELSE IF Cardinality(sel) >= Dhi THEN "full"      \* every peer is inbound: no outbound exemption
                   ELSE "accept"
         mesh1  == IF gCase = "accept" THEN sel \cup {p} ELSE sel
-        bo1    == IF gCase \in {"backoff", "negative"} THEN backoff \cup {p} ELSE backoff
+        bo1    == IF gCase \in {"backoff", "negative", "full"} THEN backoff \cup {p} ELSE backoff
         gPrune == IF gCase \in {"direct", "backoff"} THEN {[to |-> p, px |-> "nopx"]}
                   ELSE IF gCase = "negative"
                          THEN {[to |-> p, px |-> PXKind(p, Bug = "pxOnNegRefusal")]}
+                  ELSE IF gCase = "full" THEN {[to |-> p, px |-> PXKind(p, TRUE)]}   \* the only refusal that keeps doPX
                   ELSE {}
         pruneOn == ctlOn /\ "prune" \in mix /\ joined
         mesh2  == IF pruneOn THEN mesh1 \ {p} ELSE mesh1
@@ -193,24 +197,31 @@ HbOutcomes(opp) ==
            bo1   == backoff \cup neg
            cand  == {q \in Gsub \ (m1 \cup bo1 \cup Direct) : MeshCandOK(score[q])}
            fills == IF Cardinality(m1) < Dlo THEN UpTo(cand, D - Cardinality(m1)) ELSE {{}}
-       IN UNION {
-            LET m2 == m1 \cup f
+           \* over-subscription: keep D peers, among them a best-scoring one (Dscore >= 1); the rest are pruned WITH PX
+           Keeps(m) == IF Cardinality(m) >= Dhi
+                         THEN {K \in SubsetsOfSize(m, D) : Dscore = 0 \/ \E b \in K : \A q \in m : score[b] >= score[q]}
+                         ELSE {m}
+       IN UNION { UNION {
+            LET m2 == K
+                over == (m1 \cup f) \ K
                 \* opportunistic graft: median of the mesh below the threshold, candidates above the median
                 med == IF m2 = {} THEN 0
                        ELSE CHOOSE x \in {score[q] : q \in m2} :
                               /\ Cardinality({q \in m2 : score[q] < x}) <= Cardinality(m2) \div 2
                               /\ Cardinality({q \in m2 : score[q] <= x}) > Cardinality(m2) \div 2
-                ocand == {q \in Gsub \ (m2 \cup bo1 \cup Direct) : score[q] > med}
+                ocand == {q \in Gsub \ (m2 \cup bo1 \cup over \cup Direct) : score[q] > med}
                 osets == IF opp /\ Cardinality(m2) > 1 /\ med < thr.oppGraft THEN UpTo(ocand, OppPeers) ELSE {{}}
             IN UNION {
                  LET m3 == m2 \cup og IN
                  {[Blank EXCEPT
-                     !.post = Post(score, joined, fanOn, m3, bo1),
+                     !.post = Post(score, joined, fanOn, m3, bo1 \cup over),
                      !.grafted = f \cup og,
-                     !.pruned = neg,
-                     !.prunes = {[to |-> q, px |-> PXKind(q, Bug = "hbNoPXunset")] : q \in neg},
+                     !.pruned = neg \cup over,
+                     !.prunes = {[to |-> q, px |-> PXKind(q, Bug = "hbNoPXunset")] : q \in neg}
+                                \cup {[to |-> q, px |-> PXKind(q, TRUE)] : q \in over},
                      !.ihaveTo = g] : g \in GossipSets(m3)}
                  : og \in osets}
+            : K \in Keeps(m1 \cup f)}
             : f \in fills}
     ELSE IF fanOn THEN
        LET keep == {q \in sel : ~FanoutDrop(score[q])}
@@ -336,14 +347,17 @@ P_C09_Publish(a, o) ==
          {q \in Peers : q \in Direct \/ score[q] >= thr.publish} \subseteq o.recips
     /\ (a.kind = "publish" /\ ~FloodPublish) =>
          /\ {q \in FloodProto : score[q] >= thr.publish} \subseteq o.recips
-         /\ (~joined /\ sel = {}) => o.newFanout = {q \in Gsub \ Direct : score[q] >= thr.publish}
+         /\ (~joined /\ sel = {} /\ Cardinality({q \in Gsub \ Direct : score[q] >= thr.publish}) <= D)
+               => o.newFanout = {q \in Gsub \ Direct : score[q] >= thr.publish}
     /\ (IsRpc(a) /\ o.validated) => {q \in FloodProto \ {a.p} : score[q] >= thr.publish} \subseteq o.recips
     /\ (a.kind = "hb" /\ ~joined /\ fanOn) =>
-         o.post.sel = {q \in sel : score[q] >= thr.publish} \cup {q \in Gsub \ Direct : score[q] >= thr.publish}
+         LET want == {q \in sel : score[q] >= thr.publish} \cup {q \in Gsub \ Direct : score[q] >= thr.publish}
+         IN Cardinality(want) <= D => o.post.sel = want
 
 P_C09_Negative(a, o) ==
     /\ \A q \in o.grafted : score[q] >= 0
     /\ \A q \in o.post.sel \ sel : o.post.joined => score[q] >= 0
+    \* whatever else would refuse the GRAFT (mesh full, backoff, direct sender): no PX for a negative score
     /\ (IsRpc(a) /\ S(a) < 0) => \A pr \in o.prunes : pr.to = a.p => pr.px = "nopx"
     /\ (Accepted(a) /\ a.p \notin Direct /\ S(a) < 0 /\ "graft" \in a.mix /\ joined /\ a.p \notin sel) =>
          /\ a.p \notin o.post.sel
@@ -354,7 +368,7 @@ P_C09_Negative(a, o) ==
             /\ [to |-> q, px |-> "nopx"] \in o.prunes /\ [to |-> q, px |-> "px"] \notin o.prunes
     \* equality side: a score of exactly zero is not negative
     /\ (Accepted(a) /\ a.p \notin Direct /\ S(a) >= 0 /\ "graft" \in a.mix /\ joined /\ a.p \notin sel
-          /\ a.p \notin backoff /\ "prune" \notin a.mix) => a.p \in o.grafted /\ a.p \in o.post.sel
+          /\ a.p \notin backoff /\ "prune" \notin a.mix /\ Cardinality(sel) < Dhi) => a.p \in o.grafted /\ a.p \in o.post.sel
 
 P_C09_PX(a, o) ==
     /\ o.dials # {} => /\ IsRpc(a) /\ "prune" \in a.mix /\ joined /\ Accepted(a)
